@@ -54,6 +54,9 @@ class GSym(Sym):
         # dists >= self.eps
         if isinstance(e, ast.Compare) and len(e.ops) == 1 and isinstance(e.ops[0], ast.GtE) and ast.unparse(e.comparators[0]) == 'self.eps':
             a = self.val(e.left)
+            if a[0] == 'cw':
+                # per-coordinate mask of an (n_x, n_z, d) tensor: only usable as the condition of torch.where over the same coordinates
+                return ('cwmask', a[1], a[2])
             if a[0] != 'entry':
                 raise TranslationError(f'{self.cls}: mask of a non-entry value')
             return ('mask', f'(if Rle_dec eps {a[1]} then 1 else 0)', a[1])
@@ -106,17 +109,24 @@ class GSym(Sym):
                 a = self.val(e.args[0])
                 if a[0] == 'entry':
                     return ('entry', '0')
+                if a[0] == 'cw':
+                    return ('cw', a[1], '0')
             # torch.where(mask, a, b)
             if f == 'torch.where' and len(e.args) == 3 and not e.keywords:
                 m, a, b = (self.val(x) for x in e.args)
                 if m[0] == 'mask' and a[0] == 'entry' and b[0] == 'entry':
                     return ('entry', f'(if Rle_dec eps {m[2]} then {a[1]} else {b[1]})')
+                # coordinate-wise: condition and both branches range over the coordinates of the same list
+                if m[0] == 'cwmask' and a[0] == 'cw' and b[0] == 'cw' and m[1] == a[1] == b[1]:
+                    return ('cw', m[1], f'(if Rle_dec eps {m[2]} then {a[2]} else {b[2]})')
             if isinstance(e.func, ast.Attribute):
                 base = e.func.value; meth = e.func.attr
                 if meth == 'clamp_min' and len(e.args) == 1 and ast.unparse(e.args[0]) == 'self.eps':
                     a = self.val(base)
                     if a[0] == 'entry':
                         return ('entry', f'(Rmax {a[1]} eps)')
+                    if a[0] == 'cw':
+                        return ('cw', a[1], f'(Rmax {a[2]} eps)')
                 if meth == 'pow' and len(e.args) == 1 and ast.unparse(e.args[0]) == 'self.exponent':
                     a = self.val(base)
                     if a[0] == 'entry':
@@ -319,12 +329,12 @@ Qed.
 (* what the autodiff kernels differentiate: summand of `coefs @ (...).sum over query points` for a generic (x, z) *)
 Definition gen_fwd_product (t : tmat) (L q eps : R) (x z : list R) : R := {fp}.
 Definition gen_fwd_lpq (t : tmat) (L p q eps : R) (x z : list R) : R := {fq}.
-Definition gen_fwd_sum_power (t : tmat) (L q c : R) (power : nat) (x z : list R) : R := {fs}.
+Definition gen_fwd_sum_power (t : tmat) (L q c eps : R) (power : nat) (x z : list R) : R := {fs}.
 Lemma gen_fwd_product_eq_model : forall t L q eps x z, gen_fwd_product t L q eps x z = fwd_product t L q eps x z.
 Proof. intros. reflexivity. Qed.
 Lemma gen_fwd_lpq_eq_model : forall t L p q eps x z, gen_fwd_lpq t L p q eps x z = fwd_lpq t L p q eps x z.
 Proof. intros. reflexivity. Qed.
-Lemma gen_fwd_sum_power_eq_model : forall t L q c power x z, gen_fwd_sum_power t L q c power x z = fwd_sum_power t L q c power x z.
+Lemma gen_fwd_sum_power_eq_model : forall t L q c eps power x z, gen_fwd_sum_power t L q c eps power x z = fwd_sum_power t L q c eps power x z.
 Proof. intros. reflexivity. Qed.
 '''
 
